@@ -44,9 +44,9 @@ Print Assumptions c17_saved_dot_drifts.
 
 (* ==== BEGIN SOURCE-STATE BLOCKS =========================================================================
    Two independent switches.  In each, exactly one alternative compiles, depending on /repo:
-     (A*) the pinned source: the property is REFUTED on the model (witness replayed on the implementation by the check);
-     (B*) after the corresponding fix: the full positive statement.
-   To switch one: comment its (A*) theorem out, strip the 'B> ' prefixes of its (B*) lines and move them out of the
+     (An) the pinned source: the property is REFUTED on the model (witness replayed on the implementation by the check);
+     (Bn) after the corresponding fix: the full positive statement.
+   To switch one: comment its (An) theorem out, strip the 'B> ' prefixes of its (Bn) lines and move them out of the
    comment, and delete the matching entry of known_findings.d/C17.json.
      1 = utils.pushd saves os.getcwd()            (notes/C17-fix-1.diff, finding pushd-saves-dot:...)
      2 = resolve_diff_args all-paths base = HEAD  (notes/C17-fix-2.diff, finding cli-all-paths:...)
